@@ -31,6 +31,11 @@ type C05Scn struct {
 	History   []C05Step  `json:"history"`
 	Queries   [][][]byte `json:"queries"`
 	Twin      bool       `json:"two_lifecycles_under_scheduler,omitempty"`
+	// Poison: build this large regular trie between two builds of input 0; the
+	// two builds must still marshal identically ("building twice from equal
+	// input" must not depend on what the process built in between: pooled or
+	// package-level builder state).
+	Poison string `json:"build_in_between,omitempty"`
 	Chunk     int        `json:"chunk"`
 }
 
@@ -45,11 +50,18 @@ func genC05(r *Rng, tier string) *C05Scn {
 	}
 	n := r.Range(1, 3)
 	first, _ := genSpec(r, lim)
+	bigVals := r.Chance(0.02)
+	if bigVals {
+		first, _ = genBigValueSpec(r)
+	}
 	if r.Chance(0.3) {
 		first.Enc = "i32" // lets archived legacy streams take part in the history
 	}
 	for i := 0; i < n; i++ {
 		sp, name := genSpec(r, lim)
+		if bigVals && i == 0 {
+			sp, name = first, "bigvalues/"+first.Enc
+		}
 		sp.Enc = first.Enc
 		if i > 0 && r.Chance(0.25) {
 			// same keys, different options: residue of prefix arrays / leaves is the risk
@@ -165,6 +177,43 @@ func perturbKeys(r *Rng, keys [][]byte) [][]byte {
 	return sortUniq(set)
 }
 
+var poisonCache = map[string]*TrieSpec{}
+
+// poisonSpec: large, very regular key sets whose inner nodes repeat the same
+// few label bitmaps tens of thousands of times (every label count 2..10).
+func poisonSpec(kind string) *TrieSpec {
+	if s, ok := poisonCache[kind]; ok {
+		return s
+	}
+	set := map[string]bool{}
+	switch kind {
+	case "decimal5":
+		for i := 0; i < 100000; i++ {
+			set[fmt.Sprintf("%05d", i)] = true
+		}
+	case "mixedbases":
+		for b := 2; b <= 10; b++ {
+			for i := 0; i < 12000; i++ {
+				// i written in base b with digits '0'..: nodes with exactly b labels
+				d := make([]byte, 0, 16)
+				for x, k := i, 0; k < 14; k++ {
+					d = append(d, byte('0'+x%b))
+					x /= b
+				}
+				for l, r := 0, len(d)-1; l < r; l, r = l+1, r-1 {
+					d[l], d[r] = d[r], d[l]
+				}
+				set[string(append([]byte{byte('a' + b)}, d...))] = true
+			}
+		}
+	default:
+		return nil
+	}
+	s := &TrieSpec{Keys: sortUniq(set), Enc: "i32", Opt: [4]int8{-1, -1, -1, -1}}
+	poisonCache[kind] = s
+	return s
+}
+
 func (c *C05Scn) historyString() string {
 	var sb strings.Builder
 	sb.WriteString(c.Start)
@@ -230,7 +279,7 @@ type c05Probe struct {
 	permCalls, permNonIdentity                         int64
 	checkedLoads, loadsOverContent, remarshals, builds int64
 	shape                                              []string
-	failedLoads, legacyLoads                           int64
+	failedLoads, legacyLoads, poisoned                 int64
 	diskChunks                                         int64
 }
 
@@ -346,6 +395,23 @@ func (c *C05Scn) lifecycle(y func(), pr *c05Probe) (outs []string, viol *Violati
 		yield()
 	}
 	pr.diskChunks += disk.writes
+	if viol == nil && c.Poison != "" && ok[0] && y == nil {
+		if ps := poisonSpec(c.Poison); ps != nil {
+			capCall(4_000_000_000, func() { ps.build() })
+			pr.builds++
+			var t1 *trie.SlimTrie
+			var err1 error
+			capCall(2_000_000_000, func() { t1, err1 = buildWithPerm(&c.Inputs[0], 0, pr) })
+			var b1 []byte
+			if err1 == nil {
+				b1, err1 = safeMarshal(t1)
+			}
+			pr.poisoned++
+			if err1 != nil || !bytes.Equal(b1, streams[0]) {
+				fail("build-depends-on-process-history", "marshal-bytes", fmt.Sprintf("input 0 (%s): built, then a large regular trie (%s) was built, then input 0 was built again from equal input: the two builds marshal to different bytes (first difference at offset %d)", c.Inputs[0].summary(), c.Poison, firstDiff(b1, streams[0])), digest(streams[0]), digest(b1))
+			}
+		}
+	}
 	if viol != nil {
 		return outs, viol
 	}
@@ -583,6 +649,7 @@ func executeC05(scn *Scenario) *RunResult {
 	res.Counters["fault.failed_load_in_history"] += pr.failedLoads
 	res.Counters["probe.legacy_load_in_history"] += pr.legacyLoads
 	res.Counters["probe.checked_loads"] += pr.checkedLoads
+	res.Counters["fault.large_regular_build_between_two_builds"] += pr.poisoned
 	res.Counters["probe.checked_loads_over_other_content"] += pr.loadsOverContent
 	res.Counters["builds"] += pr.builds
 	res.Counters["disk.chunks_written"] += pr.diskChunks
